@@ -118,4 +118,25 @@ example :
   assign_correct .string (.str (strBytes "ab")) (intSrc 5) true (by decide)
 end NonVacuity
 
+/-! ### The tree as it is now
+
+After `fix: AssignToStr without a buffer appended …` the only switch of the chain left on in the current tree is
+`nilSrcPanics` (a nil pointer passed as the source is dereferenced, C02). For every source that is not a nil
+pointer the model of the current tree is the repaired model. -/
+section CurrentTree
+
+theorem assignM_current (dk : DynKind) (old : Val) (s : Src) (noBuf : Bool) (hs : s.v.isNilPtr = false) :
+    assignM AssignCfg.repo dk old s noBuf = assignM AssignCfg.fixed dk old s noBuf := by
+  unfold assignM
+  simp only [hs, Bool.false_and, Bool.false_eq_true, if_false]
+  rfl
+
+theorem assign_current (dk : DynKind) (old : Val) (s : Src) (noBuf : Bool) (hs : boolSrcTyped dk s = true)
+    (hn : s.v.isNilPtr = false) :
+    assignAccepts dk old s (!noBuf)
+      ((assignObsOf (assignM AssignCfg.repo dk old s noBuf) dk old s noBuf).getD {}).norm = true := by
+  rw [assignM_current dk old s noBuf hn]; exact assign_correct dk old s noBuf hs
+
+end CurrentTree
+
 end Inspector.C19
